@@ -82,8 +82,9 @@ def alive():
             return False
     if ucmm.UCMM.lock.locked() or logix.setup.lock.locked():
         return False
+    # a fresh valid request (simple, un-routed Read Tag of the whole tag from another peer) through the whole stack
     req = ref.read_tag([{'symbolic': 'A'}], 4)
-    frame = ref.encap(0x6f, 9, 0, [9] * 8, 0, ref.send_rr_data([(0, []), (0xb2, ref.unconnected_send(req, [{'port': 1, 'link': 0}]))]))
+    frame = ref.encap(0x6f, 9, 0, [9] * 8, 0, ref.send_rr_data([(0, []), (0xb2, req)]))
     proceed, rpy, data = sim.process(frame, addr=('10.9.9.9', 999), tags=TAGS)
     e = ref.un_encap([x for x in rpy])
     items, _ = ref.un_cpf(e['payload'][6:])
@@ -193,8 +194,8 @@ def do_mutate(name, pos, b, lo=0, hi=None):
     return attack(frame, may_write)
 
 
-MSH = 6           # byte positions per shard (one position costs ~8 execution paths of two full-stack requests each)
-QUICK_MUT = {('read_tag', 24), ('read_tag', 54), ('write_tag_wrapper', 0), ('write_tag_wrapper', 36), ('multiple_reads', 60), ('register', 0)}
+MSH = 3           # byte positions per shard (one position costs ~8 execution paths of two full-stack requests each)
+QUICK_MUT = {('read_tag', 0), ('read_tag', 54), ('read_tag', 57), ('write_tag_wrapper', 24), ('register', 0), ('get_attribute_single', 54)}
 for name in FRAMES:
     npos = mutable_positions(name)
     for lo in range(0, npos, MSH):
@@ -233,9 +234,9 @@ for frag in (False, True):
         for _off in (range(4) if frag else (0,)):
             define(globals(), 'C08', 'write_%s_inconsistent_fields_at%d_off%d' % ('frag' if frag else 'tag', _idx, _off), ['elements', 'nvals', 'v'],
                    "return do_write_fields(%r, %d, elements, %d, nvals, v)" % (frag, _idx, _off),
-                   ['0 <= elements <= 5 and 0 <= nvals <= 4 and -100 <= v <= 100'],
-                   tier='quick' if (frag, _idx, _off) in ((False, 1, 0), (True, 0, 0), (True, 1, 1), (True, 2, 2)) else 'thorough', timeout=3000, path_timeout=300, drives=FULL,
-                   symbolic=['elements: declared element count 0..5', 'nvals: number of values actually carried 0..4', 'v'],
+                   ['0 <= elements <= 4 and 0 <= nvals <= 3 and -100 <= v <= 100'],
+                   tier='quick' if (frag, _idx, _off) in ((False, 1, 0), (True, 0, 0), (True, 1, 1)) else 'thorough', timeout=3000, path_timeout=300, drives=FULL,
+                   symbolic=['elements: declared element count 0..4', 'nvals: number of values actually carried 0..3', 'v'],
                    bounds='reference-encoded Write Tag%s to the INT[4] tag at start index %d, declared element offset %d, with EVERY combination of declared count and carried '
                           'values: the tag changes only if the request is a complete well-formed write (then exactly the addressed elements), its length never changes, '
                           'no other tag changes, next request served' % (' Fragmented' if frag else '', _idx, _off), outside='')
